@@ -61,10 +61,15 @@ func c02Check(r *vhlib.Run, m *vhlib.Model, data []byte, kind string) {
 	if o.Cls == "nil" {
 		implObs = fmt.Sprintf("nil %s %d", vhlib.Hex(o.Out), o.In)
 	}
-	// the model is the reference for "which bytes may be delivered before a failure"
+	// the model is the reference for "which bytes may be delivered before a failure";
+	// for accepted streams it must agree with the implementation (correspondence)
 	mobs := ""
 	if len(o.Out) <= 1<<18 {
-		mobs = m.Ask("x brotli " + vhlib.Hex(data))
+		if o.Cls == "nil" {
+			mobs = "x " + r.CaseLive(m, "brotli", []string{vhlib.Hex(data)}, implObs)
+		} else {
+			mobs = m.Ask("x brotli " + vhlib.Hex(data))
+		}
 	}
 	if (o.Cls == "nil") != (lcls == "nil") {
 		r.Violate("acceptance-differs", fmt.Sprintf("impl=%s libbrotli=%s", o.Cls, lcls), replay)
@@ -79,9 +84,6 @@ func c02Check(r *vhlib.Run, m *vhlib.Model, data []byte, kind string) {
 		}
 		if mobs != "" && mobs != "x "+implObs {
 			r.Hist["model-differs"]++
-			r.CaseLive(m, "brotli", []string{vhlib.Hex(data)}, implObs)
-		} else if mobs != "" {
-			r.CaseLive(m, "brotli", []string{vhlib.Hex(data)}, implObs)
 		}
 		return
 	}
@@ -125,14 +127,14 @@ func runC02(r *vhlib.Run) {
 		c02Check(r, m, []byte{byte(i), byte(i >> 8)}, "tiny")
 	}
 	if !r.Quick() {
-		for i := 0; i < 1<<24; i += 997 {
+		for i := 0; i < 1<<24; i += 9973 {
 			c02Check(r, m, []byte{byte(i), byte(i >> 8), byte(i >> 16)}, "tiny3")
 		}
 	}
 	n := 300
 	maxPlain := 3000
 	if !r.Quick() {
-		n, maxPlain = 8000, 60000
+		n, maxPlain = 1500, 60000
 	}
 	var pool [][]byte
 	for i := 0; i < n; i++ {
